@@ -426,3 +426,19 @@ def shrink(root, still_bad, max_tests=600):
             if progress or tests[0] > max_tests:
                 break
     return best
+
+
+def snapshot(a):
+    """Deep copy of the node structure (nodes and field lists are new objects); annotations that are not fields (executor
+    references, query metadata) are carried over by reference, constants by value."""
+    if isinstance(a, ast.AST):
+        new = type(a).__new__(type(a))
+        for k, v in a.__dict__.items():
+            if k in a._fields:
+                new.__dict__[k] = snapshot(v)
+            else:
+                new.__dict__[k] = v
+        return new
+    if isinstance(a, list):
+        return [snapshot(x) for x in a]
+    return a
